@@ -1,4 +1,4 @@
-"""C16 — Group mode: generators, implementation runner, classifier of the two known defects."""
+"""C16 — Group mode: generators, implementation runner, classifier of the known deviations."""
 import json
 import os
 import random
@@ -11,61 +11,92 @@ READY = True
 MANIFEST = dict(
     text="Lean 4 theorems about a statement-by-statement model of Group mode (Group.glomit, GROUP with its single "
          "accumulator tree keyed by id(spec) / spec objects / bucket keys, the STOP marks and the `done` flag, First, "
-         "Max, Min, Avg, Sample with its random source as a parameter, Limit at any depth, Fold._agg, Merge._agg, "
-         "aggregator CLASSES used as nodes, class objects used as key functions, T-expressions with the arithmetic "
-         "operators of _t_eval): c16_exact — for every spec tree of any depth, every item sequence and every key "
-         "function the result is EXACTLY the dictionary of a hand-written bucketing loop over the items before the "
-         "first STOP event (keys in order of first occurrence, values in encounter order, SKIP drops an item, every "
-         "leaf equal to its plain-Python reference over the items routed to it), under the one hypothesis the proof "
-         "forces (no bucket key equals id() of its spec dict).  Corollaries: c16_eq_reference_partial (no STOP event: "
-         "the whole hand-written loop), top-level Limit(n) / First, per-bucket independence, Sample = the reservoir "
-         "reference with length / membership bounds, freshness of the tree on re-use, nesting and in every history of "
-         "evaluations.  The full statement is DISPROVED in the model by `decide` on the two concrete witnesses "
-         "(c16_F9_counterexample, c16_F10_counterexample), on which model and real glom agree: both are genuine "
-         "defects of /repo, listed as known findings; c16_exact (F9) and c16_F10_exact (F10) say exactly what the code "
-         "computes instead.  T-expression evaluation on a store of mutable cells never writes an existing cell "
-         "(c16_texpr_frame) and refines the value-level evaluation.  Per-run facts obligation: the statements of Group "
-         "mode regenerated from /repo equal the statements the model transcribes, grouping.py has no module-level "
-         "state besides its two sentinels, every arithmetic arm of _t_eval rebinds `cur`.  Model tied to the code by "
-         "differential execution of histories of evaluations, each case in a fresh copy of the process.",
+         "Max, Min, Avg with its float accumulation, Sum as a left fold over ints and floats, Sample with its random "
+         "source as a parameter, Limit at any depth, Fold._agg, Merge._agg, a Fold inside a Fold's subspec, aggregator "
+         "CLASSES used as nodes, class objects used as key functions, T-expressions with the arithmetic operators of "
+         "_t_eval, floats and tuples as bucket keys): c16_exact — for every spec tree of any depth, every item sequence "
+         "and every key function the result is EXACTLY `implTop`: the dictionary of a hand-written bucketing loop over "
+         "the items before the first STOP event (keys in order of first occurrence, values in encounter order, SKIP "
+         "drops an item, every leaf equal to its plain-Python reference over the items routed to it — well-typedness "
+         "is per bucket), and `emptyOf` over nothing, under the hypotheses the proof forces (no bucket key equals "
+         "id() of its spec dict; no SKIP from a bare function below a key level).  The REFERENCE of the property "
+         "(`valOfTop`) is the hand-written loop on every item list, the empty one included, and knows nothing of what "
+         "glom returns over nothing.  Corollaries: c16_eq_reference_partial (no STOP event, nothing evaluated over "
+         "nothing: the whole hand-written loop), top-level Limit(n>=1) / First, per-bucket independence, Sample = the "
+         "reservoir reference with length / membership bounds.  The full statement is DISPROVED in the model by "
+         "`decide` on concrete witnesses (c16_F9_counterexample, c16_F10_counterexample, c16_empty_counterexample), "
+         "on which model and real glom agree: genuine deviations of /repo, listed as known findings; c16_exact (F9), "
+         "c16_F10_exact (F10) and c16_empty (empty_or_limit0) say exactly what the code computes instead.  State "
+         "OUTSIDE the accumulator tree is explicit (Model/C16State.lean): c16_history_independent — for every value "
+         "of the extracted state facts that is quiet (only constructors write attributes of the spec objects, no "
+         "function writes a module-level name, no mutable module / class binding or default argument) every history "
+         "of evaluations leaves the state as it was and each evaluation is the stand-alone one; the facts extracted "
+         "from grouping.py and reduction.py are quiet (facts obligation).  T-expression evaluation on a store of "
+         "mutable cells never writes an existing cell (c16_texpr_frame) and refines the value-level evaluation.  "
+         "Per-run facts obligation: the statements of Group mode AND of the code around it (target_iter, every "
+         "constructor, Fold.glomit / _fold) in a normal form equal the statements the model transcribes / assumes, "
+         "the method list of the classes, the state facts, every arithmetic arm of _t_eval rebinds `cur`.  Model tied "
+         "to the code by differential execution of histories of evaluations, each case in a fresh copy of the process.",
     note="partial: the equality with the hand-written loop needs H1'' (no STOP EVENT under a key level — a STOP from "
-         "one bucket's leaf ends the whole evaluation in the code: F9) and H2' (the tree mixes namespaces: F10).  "
-         "trusted: Lean kernel + {propext, Classical.choice, Quot.sound}; extractor; harness/driver; one key-spec per "
-         "dict level and one value-spec per list (the documented shape); key/value functions from a finite catalogue "
-         "(T-expression chains, class objects, lambdas); IEEE division of Avg is a primitive (float(sum)/count on "
-         "exact integer sums, compared by bit pattern); Sample's random source is a function of num_seen (a table; "
-         "the harness substitutes random.randint by it), which covers every draw sequence of ONE reservoir, not the "
-         "joint distribution over several; runs in which a user function raises are outside the property (error "
-         "classes still compared).",
+         "one bucket's leaf ends the whole evaluation in the code: F9), H2' (the tree mixes namespaces: F10), no SKIP "
+         "from a bare function / nested Group below a key level (the sub-tree is wiped: skip_below_key_level) and "
+         "nothing evaluated over nothing / Limit(0) (empty_or_limit0).  trusted: Lean kernel + {propext, "
+         "Classical.choice, Quot.sound}; extractor; harness/driver; one key-spec per dict level and one value-spec per "
+         "list (the documented shape); key/value functions from a finite catalogue (T-expression chains, class "
+         "objects, lambdas); IEEE double addition / division / comparison are primitives (Lean Float in the driver, "
+         "opaque to the proofs; values compared by bit pattern); Sample's random source is a function of num_seen (a "
+         "table; the harness substitutes random.randint by it), which covers every draw sequence of ONE reservoir, "
+         "not the joint distribution over several; runs in which a user function raises are outside the property (a "
+         "raising run is compared as 'raises': the exception class is reported, not compared).",
     technique='Lean 4 simulation proof (tree-threading interpreter = bucketing loop cut at the first STOP event) + '
-              'decide on counterexample witnesses + facts obligation + differential correspondence over histories',
+              'explicit process-state model discharged from extracted write facts + decide on counterexample '
+              'witnesses + facts obligation + differential correspondence over histories',
     ref='DESIGN.md §3 C16')
 RULE = ('type-directed: a case is a HISTORY in one (forked, fresh) process: 1-3 Group spec objects, 1-3 target objects '
         'with shared sub-objects (the same item object at several positions / in several targets, a list or dict field '
         'shared by several items), and a list of evaluations (spec i on target j; the same spec object and the same '
-        'target object repeatedly, other spec objects in between, both orders).  Spec trees: 0-3 key levels; key '
-        'functions T % n, T[k], len, lambdas incl. SKIP-producing ones, T-expression chains with + * | % on ints, '
-        'strings, lists, tuples and dicts (key and leaf computed from the same mutable field), the class objects type '
-        '/ str / bool / int; leaf = [f] / First / Max / Min / Avg / Sum(f) / Count / Flatten(f) / Merge(f) / Sample(k) '
-        '/ a bare function / a nested Group / an aggregator CLASS used without instantiation (static or class method '
-        'agg) / an aggregator class without parentheses; Limit(n) at the top and below key levels.  Observed per '
-        'evaluation: the result, the target afterwards (values) and whether every edge of its object graph still '
-        'points to the same object.  Item families: ints, bools, strs, small dicts, lists/tuples; 0-12 items.  A '
-        'one-edit mutation stream plants a wrong-typed item / missing key / STOP-producing function / a forgotten '
-        'pair of parentheses; two separate streams violate H1 (First / Limit / stop_at under a key level) and H2 (a '
-        'key function returning id(spec dict) or the key-spec object) on purpose; thorough additionally enumerates '
-        'all specs of a small grammar over fixed item lists and all orders of small histories. non-trivial = some '
-        'evaluated target has >= 2 items; distinct = distinct (specs, targets, evals).')
+        'target object repeatedly, other spec objects in between, both orders; ONE Group object nested in two other '
+        'specs of the history and evaluated itself).  Target objects: list, tuple, generator, iterator, range, set, '
+        'dict.  Spec trees: 0-3 key levels; key functions T % n, T[k], len, the item itself (ints, floats, tuples as '
+        'bucket keys), lambdas incl. SKIP-producing ones, T-expression chains with + * | % on ints, strings, lists, '
+        'tuples and dicts (key and leaf computed from the same mutable field), the class objects type / str / bool / '
+        'int; leaf = [f] / First / Max / Min / Avg / Sum(f) / Count / Flatten(f) / Merge(f) / Sample(k) / Sum(Sum()) '
+        '/ Sum(Count()) / a bare function (SKIP-producing ones included) / a nested Group / an aggregator CLASS used '
+        'without instantiation (static or class method agg) / an aggregator class without parentheses; Limit(n) at '
+        'the top and below key levels, with and without subspec, n = 0, negative, float.  Observed per evaluation: the '
+        'result, the target afterwards (values) and whether every edge of its object graph still points to the same '
+        'object.  Item families: ints, bools, strs, small dicts, lists/tuples, numbers (floats, ints beyond 2^53); '
+        '0-12 items (the empty target is generated for every spec shape).  A one-edit mutation stream plants a '
+        'wrong-typed item / missing key / STOP-producing function / a forgotten pair of parentheses; two separate '
+        'streams violate H1 (First / Limit / stop_at under a key level) and H2 (a key function returning id(spec '
+        'dict) or the key-spec object) on purpose; thorough additionally enumerates all specs of a small grammar '
+        'over fixed item lists and all orders of small histories.  A failing evaluation is classified ON THAT '
+        'EVALUATION (Spec `devClass`), and only when the implementation does there exactly what the model of the '
+        'current code does.  non-trivial = some evaluated target has >= 2 items; distinct = distinct (specs, '
+        'targets, kinds, evals).')
 TRUSTED = ['the catalogue of key/value functions (Lean `Fn.apply` vs the Python lambdas / T-expressions / class '
            'objects below) and Python dict / comparison / iteration / str() semantics as modelled in '
            'Glom/Model/C16.lean: validated by the correspondence only',
-           'Avg: float(sum)/count as an IEEE primitive (Lean Float in the driver); averaged values are ints with |sum| < 2^53',
-           'Sample: random.randint is substituted by a table-driven function of its upper bound for the evaluation']
-ASSUMPTIONS = ['one key-spec per dict level and one value-spec per list level (multi-entry levels are outside the model)',
+           'IEEE double +, /, <, == and int->float conversion: Lean Float in the compiled driver (the same C doubles); '
+           'a bucket key that is an integral float is the int it equals (below 4e18)',
+           'Sample: random.randint is substituted by a table-driven function of its upper bound for the evaluation',
+           'the iteration order of a set target is whatever CPython yields: the case lists the items in that order']
+ASSUMPTIONS = ['one key-spec per dict level and one value-spec per list level (multi-entry levels, aggregators inside '
+               'a list spec — their results alias a mutable accumulator — are outside the model)',
                'object addresses (id()) are larger than every generated int (1e9)',
-               'a SKIP-producing bare function in value position under a key level is skipped (keys are then ordered '
-               'by first value, not first occurrence)',
-               'runs in which a user function raises are outside the property',
+               'READING (references of the leaves): Sum = the left fold reduce(operator.add, items, init()) (not the '
+               'compensated builtin sum() of Python >= 3.12); Avg = the running FLOAT sum s = 0.0; s += x over the '
+               'count (ints beyond 2^53 are rounded on the way, not statistics.mean / fsum); Max / Min = the first '
+               'extremum of a left fold, numbers with a float among them compared as doubles; over NO items First / '
+               'Max / Min / Avg have no Python reference (max([]) raises): None is the reference',
+               'READING (bare function / nested Group in value position): its last value that is not SKIP; no such '
+               'value: no entry (None at the top)',
+               'READING (Limit): Limit(n) compares the int count with n: a negative n is Limit(0), a float n is '
+               'Limit(floor(n))',
+               'READING (targets): the items of a target are what iter(target) yields (dict: its keys); a generator '
+               'target is evaluated once',
+               'the same Group object nested INSIDE ITSELF (a cyclic spec) is not generated: specs are trees in the model',
+               'runs in which a user function raises are outside the property (compared as "raises")',
                'os.fork is available: every case runs in a fresh copy of a process that has imported glom and '
                'evaluated nothing (VERIF_C16_NOFORK=1 runs in-process)']
 
@@ -78,6 +109,8 @@ def jv(v):
         return {'b': v}
     if isinstance(v, int):
         return {'i': v}
+    if isinstance(v, float):
+        return {'fbits': str(struct.unpack('<Q', struct.pack('<d', v))[0])}
     if isinstance(v, str):
         return {'s': v}
     if isinstance(v, list):
@@ -121,6 +154,8 @@ def dec(j, objs=None, shared=None, edges=None):
         return j['i']
     if 's' in j:
         return j['s']
+    if 'fbits' in j:
+        return struct.unpack('<d', struct.pack('<Q', int(j['fbits'])))[0]
     if 'sent' in j:
         return SKIP if j['sent'] == 'SKIP' else STOP
     if 'sh' in j:
@@ -231,6 +266,12 @@ def build_fn(j, objs):
         return T % j['n']
     if name == 'item':
         return T[dec(j['k'])]
+    if name == 'fold_sum':
+        from glom.reduction import Sum
+        return Sum()            # a Fold inside a Fold's subspec: a plain fold of the item
+    if name == 'fold_count':
+        from glom.reduction import Count
+        return Count()
     if name == 't':
         return build_texpr(j['ops'])
     if name == 'cls':
@@ -281,7 +322,10 @@ def make_cls_count():
     return Tally
 
 
-def build_spec(j, objs):
+def build_spec(j, objs, pool=None):
+    """pool: Group objects by number (`gid`): the same number is the same Group object, wherever it
+    occurs (nested in several specs of the history, or evaluated itself)"""
+    pool = {} if pool is None else pool
     from glom.grouping import Group, First, Avg, Max, Min, Limit, Sample
     from glom.reduction import Sum, Count, Flatten, Merge
     k = j['k']
@@ -290,7 +334,7 @@ def build_spec(j, objs):
         d = {}
         objs[j['id']] = d
         objs[j['kid']] = keyfn
-        d[keyfn] = build_spec(j['sub'], objs)
+        d[keyfn] = build_spec(j['sub'], objs, pool)
         return d
     if k == 'list':
         l = [build_fn(j['f'], objs)]
@@ -318,12 +362,21 @@ def build_spec(j, objs):
     if k == 'fn':
         return build_fn(j['f'], objs)
     if k == 'limit':
-        sub = build_spec(j['sub'], objs)
-        o = Limit(j['n'], sub)
+        if j.get('nosub'):
+            o = Limit(j['n'])                       # the default subspec [T]
+            objs[j['sub']['id']] = o.subspec
+        else:
+            o = Limit(j['n'], build_spec(j['sub'], objs, pool))
         objs[j['oid']] = o
         return o
-    if k == 'nested':
-        return Group(build_spec(j['g'], objs))
+    if k in ('nested', 'group_obj'):
+        gid = j['gid']
+        if gid not in pool:
+            inner = {}
+            pool[gid] = (Group(build_spec(j['g'], inner, pool)), inner)
+        g, inner = pool[gid]
+        objs.update(inner)                          # (numbers of pooled Groups are unique in the case)
+        return g
     raise ValueError(k)
 
 
@@ -343,6 +396,36 @@ def set_tbl(s, tbl):
             set_tbl(s[c], tbl)
 
 
+# ---------------------------------------------------------------------------------------------------
+# GATE (clearly marked, to be removed by the lead): two classes of deviation from the hand-written
+# loop found by the audit are to become KNOWN FINDINGS.  Until their `known:` lines are in
+# KNOWN_FINDINGS.txt the checker ACCEPTS them (the driver gets them in `accept`, counts the cases in
+# the histogram branch `…:pending-<class>` and still demands that the implementation does exactly
+# what the model of the current code does).  As soon as a line is there the class is no longer
+# accepted: its cases fail the checker and are reported as KNOWN-FINDING by the framework.
+GATE_PENDING_KNOWN = True
+NEW_KNOWN_CLASSES = ('empty_or_limit0', 'skip_below_key_level')
+_PENDING = None
+
+
+def pending_accept():
+    global _PENDING
+    if _PENDING is None:
+        have = set()
+        p = os.path.join(os.path.dirname(os.path.dirname(os.path.dirname(os.path.abspath(__file__)))),
+                         'KNOWN_FINDINGS.txt')
+        try:
+            for line in open(p):
+                if line.startswith('known:') and 'property=C16' in line:
+                    for c in NEW_KNOWN_CLASSES:
+                        if 'classifier=' + c in line:
+                            have.add(c)
+        except OSError:
+            pass
+        _PENDING = [c for c in NEW_KNOWN_CLASSES if c not in have] if GATE_PENDING_KNOWN else []
+    return list(_PENDING)
+
+
 def normalize(case):
     """the canonical form {'specs', 'shared', 'targets', 'evals', 'rng'}; the earlier form
     {'spec', 'runs'} is one spec object evaluated on each run in turn"""
@@ -353,6 +436,8 @@ def normalize(case):
         c['evals'] = [[0, i] for i in range(len(c['targets']))]
     c.setdefault('shared', [])
     c.setdefault('rng', [])
+    c.setdefault('tkinds', ['list'] * len(c['targets']))
+    c['accept'] = pending_accept()
     c = json.loads(json.dumps(c))
     for s in c['specs']:
         set_tbl(s, c['rng'])
@@ -370,11 +455,12 @@ def _run_here(case):
         return (tbl[b % len(tbl)] % (b + 1)) if tbl else 0
     _random.randint = table_randint
 
-    groups, encs = [], []
+    groups, encs, pool = [], [], {}
     for sj in case['specs']:
         objs = {}
-        spec = build_spec(sj, objs)
-        groups.append(Group(spec))               # ONE Group object per spec for the whole history
+        spec = build_spec(sj, objs, pool)
+        # ONE Group object per spec for the whole history; a `group_obj` spec IS a pooled Group object
+        groups.append(spec if sj['k'] == 'group_obj' else Group(spec))
         ids = {id(o): n for n, o in objs.items() if type(o) in (dict, list)}
         oids = {id(o): n for n, o in objs.items() if type(o) not in (dict, list)}
         encs.append((objs, ids, oids))
@@ -392,17 +478,43 @@ def _run_here(case):
             edges.add(t, i, x)
         targets.append(t)
     lens = [len(t) for t in targets]
+    # the target OBJECT glom gets: the list itself, or another iterable over the same item objects
+    kinds = case.get('tkinds') or ['list'] * len(targets)
+    tobjs = []
+    for t, kind in zip(targets, kinds):
+        if kind == 'list':
+            tobjs.append(t)
+        elif kind == 'tuple':
+            tobjs.append(tuple(t))
+        elif kind == 'gen':
+            tobjs.append((x for x in t))
+        elif kind == 'iter':
+            tobjs.append(iter(t))
+        elif kind == 'range':
+            tobjs.append(range(t[0], t[-1] + 1) if t else range(0))
+        elif kind == 'dict':
+            tobjs.append(dict.fromkeys(t))
+        elif kind == 'set':
+            tobjs.append(set(t))
+        else:
+            raise ValueError(kind)
     out = []
     for si, ti in case['evals']:
         objs, ids, oids = encs[si]
-        target = targets[ti]
         try:
-            r = glom.glom(target, groups[si])
+            r = glom.glom(tobjs[ti], groups[si])
             o = {'ok': enc(r, ids, oids)}
         except Exception as e:
             o = {'err': exc_class(e).__name__}
-        o['after'] = [enc(x, {}, {}) for x in target]
-        o['ident'] = bool(edges.check() and [len(t) for t in targets] == lens)
+        # the target afterwards: the items the object yields now (a consumed generator cannot be asked)
+        if kinds[ti] in ('gen', 'iter'):
+            now = targets[ti]
+        else:
+            now = list(tobjs[ti])
+        o['after'] = [enc(x, {}, {}) for x in now]
+        o['ident'] = bool(edges.check() and [len(t) for t in targets] == lens
+                          and len(now) == len(targets[ti]) and all(a is b or kinds[ti] == 'range'
+                                                                   for a, b in zip(now, targets[ti])))
         out.append(o)
     return out
 
@@ -532,8 +644,8 @@ def run_impl(case):
 
 # ------------------------------------------------------------------ generators
 class Ctr:
-    def __init__(self):
-        self.n = 0
+    def __init__(self, start=0):
+        self.n = start
 
     def next(self):
         self.n += 1
@@ -605,12 +717,18 @@ T_SUM = {
     'rec': lambda r: r.choice([tx(o_item('v'), o_add(1)), tx(o_item('v'), o_mul(2)), tx(o_item('a'))]),
     'seq': lambda r: r.choice([tx(o_item(0)), tx(o_item(0), o_add(1))]),
 }
-CLS_KEYS = {'int': ['type', 'str', 'bool', 'int'], 'rec': ['type', 'bool', 'str'], 'seq': ['type', 'bool', 'str']}
+CLS_KEYS = {'int': ['type', 'str', 'bool', 'int'], 'rec': ['type', 'bool', 'str'], 'seq': ['type', 'bool', 'str'],
+            'num': ['type', 'bool']}
 
 
 def key_fn(rng, fam, bias=None):
     """bias: 'tarith' / 'clsobj' force that class of key function"""
     c = rng.random()
+    if fam == 'num':
+        # numbers incl. floats and ints beyond 2^53: key functions that do no arithmetic
+        # … and the numbers themselves as bucket keys (1 == 1.0 == True: one bucket)
+        return rng.choice([cls('type'), cls('bool'), fn('ident'), fn('ident'), fn('const', v=jv(rng.choice(['k', 0]))),
+                           fn('skip_if', v=jv(1))])
     if bias == 'tarith' or (bias is None and c < 0.1):
         return T_KEYS[fam](rng)
     if bias == 'clsobj' or (bias is None and c < 0.18):
@@ -630,11 +748,14 @@ def key_fn(rng, fam, bias=None):
         return fn('const', v=jv(rng.choice(['k', 0, None, True])))
     if fam == 'rec':
         return fn('item', k=jv(rng.choice(['g', 'g', 'a', 'b'])))
-    return rng.choice([fn('len'), fn('item', k=jv(0)), fn('item', k=jv(-1))])
+    # (the item itself as key: a tuple is a bucket key, a list is unhashable)
+    return rng.choice([fn('len'), fn('item', k=jv(0)), fn('item', k=jv(-1)), fn('len'), fn('ident')])
 
 
 def val_fn(rng, fam, bias=None):
     c = rng.random()
+    if fam == 'num':
+        return rng.choice([fn('ident'), fn('ident', style='lambda'), cls('type'), cls('bool'), fn('skip_if', v=jv(1))])
     if bias == 'tarith' or (bias is None and c < 0.14):
         return T_VALS[fam](rng)
     if bias == 'clsobj' or (bias is None and c < 0.2):
@@ -653,6 +774,9 @@ def agg_choice(rng, fam, bias=None):
         return rng.choice([{'agg': 'cls_last'}, {'agg': 'cls_count'}, {'agg': 'cls_last'}])
     if rng.random() < 0.07:
         return {'agg': 'sample', 'size': rng.choice([0, 1, 2, 2, 3]), 'tbl': []}
+    if fam == 'num':
+        return rng.choice([{'agg': 'avg'}, {'agg': 'avg'}, {'agg': 'sum'}, {'agg': 'sum', 'f': fn('ident')}, {'agg': 'max'},
+                           {'agg': 'min'}, {'agg': 'count'}, {'agg': 'first'}, {'agg': 'cls_last'}])
     if fam == 'int':
         if ta:
             return {'agg': 'sum', 'f': T_SUM['int'](rng)}
@@ -669,7 +793,16 @@ def agg_choice(rng, fam, bias=None):
     if ta:
         return rng.choice([{'agg': 'flatten', 'f': T_FLAT['seq'](rng)}, {'agg': 'sum', 'f': T_SUM['seq'](rng)}])
     return rng.choice([{'agg': 'first'}, {'agg': 'count'}, {'agg': 'flatten'}, {'agg': 'flatten', 'f': fn('ident')},
-                       {'agg': 'sum', 'f': fn('len')}, {'agg': 'count'}])
+                       {'agg': 'sum', 'f': fn('len')}, {'agg': 'count'}, {'agg': 'sum', 'f': fn('fold_sum')},
+                       {'agg': 'sum', 'f': fn('fold_count')}])
+
+
+GID = [0]      # Group object numbers (unique in a case: reset by gen_case)
+
+
+def mk_nested(inner):
+    GID[0] += 1
+    return {'k': 'nested', 'gid': GID[0], 'g': inner}
 
 
 def leaf(rng, fam, ctr, allow_nested=True, bias=None):
@@ -680,14 +813,12 @@ def leaf(rng, fam, ctr, allow_nested=True, bias=None):
         return {'k': 'agg', 'oid': ctr.next(), 'a': agg_choice(rng, fam, bias)}
     if fam == 'seq' and allow_nested and rng.random() < 0.35:
         inner = gen_spec(rng, 'int', ctr, rng.choice([0, 0, 1]), allow_nested=False)
-        return {'k': 'nested', 'g': inner}
+        return mk_nested(inner)
     if c < 0.96 or fam != 'seq' or not allow_nested:
-        f = val_fn(rng, fam, bias)
-        if f['fn'] in ('skip_odd', 'skip_if'):
-            f = fn('ident')
-        return {'k': 'fn', 'f': f}
+        # a bare function in value position — SKIP-producing ones included
+        return {'k': 'fn', 'f': val_fn(rng, fam, bias)}
     inner = gen_spec(rng, 'int', ctr, rng.choice([0, 0, 1]), allow_nested=False)
-    return {'k': 'nested', 'g': inner}
+    return mk_nested(inner)
 
 
 def gen_spec(rng, fam, ctr, depth, allow_nested=True, bias=None):
@@ -716,7 +847,19 @@ def stop_free_leaf(s, no_avg=False):
     return s
 
 
-def gen_item(rng, fam):
+NUM_FLOATS = [0.1, 0.1, 2.5, -1.5, 0.0, 3.0, 1e16, 0.3]
+NUM_BIG = [2 ** 53, 2 ** 53 + 1, 2 ** 53 + 3, 2 ** 60 + 129, -(2 ** 53) - 1]
+
+
+def gen_item(rng, fam, numkind=None):
+    if fam == 'num':
+        c = rng.random()
+        if c < 0.45:
+            return jv(rng.randint(-3, 12))
+        if c < 0.5:
+            return jv(rng.choice([True, False]))
+        # one target holds floats OR ints beyond 2^53, not both (Max / Min compare as doubles)
+        return jv(rng.choice(NUM_FLOATS if numkind == 'float' else NUM_BIG))
     if fam == 'int':
         return jv(rng.choice([True, False]) if rng.random() < 0.06 else rng.randint(-3, 12))
     if fam == 'rec':
@@ -729,13 +872,14 @@ def gen_item(rng, fam):
 
 def gen_items(rng, fam, n=None):
     n = rng.choice([0, 1, 2, 3, 4, 5, 6, 8, 12]) if n is None else n
-    return [gen_item(rng, fam) for _ in range(n)]
+    numkind = rng.choice(['float', 'float', 'big'])
+    return [gen_item(rng, fam, numkind) for _ in range(n)]
 
 
 def add_sharing(rng, fam, targets, shared, force=False):
     """the same item object at several positions (of one or several targets); a list / dict field
     shared by several items"""
-    if fam == 'int' or not (force or rng.random() < 0.3):
+    if fam in ('int', 'num') or not (force or rng.random() < 0.3):
         return
     places = [(ti, i) for ti, t in enumerate(targets) for i in range(len(t)) if 'sh' not in (t[i] or {})]
     for _ in range(rng.choice([1, 1, 2])):
@@ -801,14 +945,106 @@ def deepest_sub_holder(s):
     return d
 
 
-STREAMS = ['main', 'toplimit', 'mutate', 'h1', 'h2', 'hist', 'tarith', 'quiet']
-WEIGHTS = [0.38, 0.08, 0.12, 0.10, 0.08, 0.11, 0.09, 0.04]
+STREAMS = ['main', 'toplimit', 'mutate', 'h1', 'h2', 'hist', 'tarith', 'quiet', 'sgroup']
+WEIGHTS = [0.36, 0.08, 0.11, 0.10, 0.08, 0.10, 0.09, 0.04, 0.04]
+
+
+def gen_shared_group(rng):
+    """ONE Group object (number 1) nested in two other specs of the history AND evaluated itself"""
+    inner = gen_spec(rng, 'int', Ctr(500), rng.choice([0, 0, 1]), allow_nested=False)
+    d = first_dict(inner)
+    if d is not None:
+        stop_free_leaf(d['sub'])
+
+    def nested():
+        return {'k': 'nested', 'gid': 1, 'g': json.loads(json.dumps(inner))}
+    ca, cb = Ctr(), Ctr(100)
+    sa = mk_dict(ca, rng.choice([fn('len'), cls('type'), fn('item', k=jv(0))]), nested()) if rng.random() < 0.7 else nested()
+    sb = mk_dict(cb, rng.choice([fn('len'), cls('bool')]), mk_dict(cb, fn('len'), nested())) if rng.random() < 0.5 \
+        else mk_dict(cb, fn('len'), nested())
+    sc = {'k': 'group_obj', 'gid': 1, 'g': json.loads(json.dumps(inner))}
+    specs = [sa, sb, sc]
+    targets = [gen_items(rng, 'seq'), gen_items(rng, 'int'), gen_items(rng, 'seq')]
+    evals = [[0, 0], [1, 0], [2, 1], [0, 2], [2, 1], [1, 2]]
+    rng.shuffle(evals)
+    evals = evals[:rng.choice([3, 4, 6])]
+    tbl = [rng.randint(0, 20) for _ in range(3)]
+    case = {'specs': specs, 'shared': [], 'targets': targets, 'evals': evals, 'rng': tbl, 'stream': 'sgroup'}
+    for sp in specs:
+        set_tbl(sp, tbl)
+    return case
+
+
+def limits_of(s):
+    out = []
+    while True:
+        if s['k'] == 'limit':
+            out.append(s)
+        if s['k'] in ('dict', 'limit'):
+            s = s['sub']
+        elif s['k'] in ('nested', 'group_obj'):
+            s = s['g']
+        else:
+            return out
+
+
+def vary_limits(rng, spec):
+    """Limit(n) without a subspec (the default [T]); a negative bound (nothing passes, like 0); a float
+    bound (`count > n`: like its floor)"""
+    for lm in limits_of(spec):
+        c = rng.random()
+        if c < 0.25 and isinstance(lm['n'], int):
+            lm['n'] = lm['n'] + 0.5
+        elif c < 0.35:
+            lm['n'] = rng.choice([-1, -3, 0])
+        if lm['sub']['k'] == 'list' and lm['sub']['f'] == fn('ident') and rng.random() < 0.6:
+            lm['nosub'] = True
+
+
+def vary_targets(rng, fam, targets, evals, shared):
+    """the target OBJECT: not only lists (the Group docstring uses range(10))"""
+    kinds = ['list'] * len(targets)
+    if shared:
+        return kinds
+    uses = [sum(1 for _, t in evals if t == i) for i in range(len(targets))]
+    for i, t in enumerate(targets):
+        if rng.random() >= 0.22:
+            continue
+        opts = ['tuple', 'tuple']
+        if uses[i] <= 1:
+            opts += ['gen', 'iter', 'gen']
+        ints = [x['i'] for x in t if isinstance(x, dict) and 'i' in x]
+        if fam in ('int', 'num') and len(ints) == len(t):
+            opts += ['range', 'set', 'dict', 'dict']
+        k = rng.choice(opts)
+        if k == 'range':
+            a = rng.randint(-2, 3)
+            targets[i] = [jv(a + j) for j in range(len(t))]
+        elif k == 'set':
+            order = list(set(ints))                          # the set's own iteration order: a fixpoint,
+            for _ in range(6):                               # since the harness builds set(<these items>)
+                nxt = list(set(order))
+                if nxt == order:
+                    break
+                order = nxt
+            else:
+                k = 'tuple'
+            targets[i] = [jv(x) for x in order] if k == 'set' else targets[i]
+        elif k == 'dict':
+            targets[i] = [jv(x) for x in dict.fromkeys(ints)]
+        kinds[i] = k
+    return kinds
 
 
 def gen_case(rng, tier, stream=None):
     ctr = Ctr()
-    fam = rng.choice(['int', 'int', 'int', 'rec', 'rec', 'seq'])
+    GID[0] = 1
+    fam = rng.choice(['int', 'int', 'int', 'rec', 'rec', 'seq', 'num'])
     st = stream or rng.choices(STREAMS, WEIGHTS)[0]
+    if st == 'sgroup':
+        return gen_shared_group(rng)
+    if fam == 'num' and st in ('tarith', 'h2', 'quiet', 'mutate'):
+        fam = 'int'
     if st == 'tarith' and fam == 'int' and rng.random() < 0.8:
         fam = rng.choice(['rec', 'rec', 'seq'])
     depth = rng.choice([0, 1, 1, 1, 2, 2, 3])
@@ -876,7 +1112,7 @@ def gen_case(rng, tier, stream=None):
         if c < 0.5:
             d['sub'] = {'k': 'agg', 'oid': ctr.next(), 'a': {'agg': 'first'}}
         elif c < 0.8:
-            d['sub'] = {'k': 'limit', 'oid': ctr.next(), 'n': rng.choice([1, 2, 3]),
+            d['sub'] = {'k': 'limit', 'oid': ctr.next(), 'n': rng.choice([0, 1, 2, 3]),
                         'sub': {'k': 'list', 'id': ctr.next(), 'f': fn('ident')}}
         else:
             d['sub'] = {'k': 'list', 'id': ctr.next(), 'f': fn('stop_at', n=rng.choice([3, 6]))}
@@ -929,7 +1165,12 @@ def gen_case(rng, tier, stream=None):
         for _ in range(rng.choice([1, 1, 2])):
             evals.insert(rng.randint(0, len(evals)), [0, rng.randrange(len(targets))])
     tbl = [rng.randint(0, 20) for _ in range(rng.choice([1, 3, 5, 7]))] if rng.random() < 0.9 else []
-    case = {'specs': specs, 'shared': shared, 'targets': targets, 'evals': evals, 'rng': tbl, 'stream': st}
+    if st != 'h2':
+        for sp in specs:
+            vary_limits(rng, sp)
+    kinds = vary_targets(rng, fam, targets, evals, shared) if st not in ('h2', 'mutate') else ['list'] * len(targets)
+    case = {'specs': specs, 'shared': shared, 'targets': targets, 'tkinds': kinds, 'evals': evals, 'rng': tbl,
+            'stream': st}
     for s in specs:
         set_tbl(s, tbl)
     return case
@@ -1044,6 +1285,38 @@ def corpus():
                            'sub': {'k': 'agg', 'oid': 2, 'a': {'agg': 'sample', 'size': 2, 'tbl': []}}}],
                 'shared': [], 'targets': [[jv([x] * (x % 2 + 1)) for x in range(9)]], 'evals': [[0, 0], [0, 0]],
                 'rng': [0, 5, 1, 9], 'stream': 'corpus'})
+    # empty_or_limit0: glom([], Group(Sum())) is None (the loop: 0); Group(Limit(0)) is None (the loop: []);
+    # {T % 2: Limit(0, [T])} is {} (the loop: {0: [], 1: []}); Group(Count()) / Limit(2) over nothing
+    lim0 = {'k': 'limit', 'oid': 4, 'n': 0, 'nosub': True, 'sub': {'k': 'list', 'id': 5, 'f': fn('ident')}}
+    out.append({'specs': [{'k': 'agg', 'oid': 0, 'a': {'agg': 'sum'}}, {'k': 'agg', 'oid': 0, 'a': {'agg': 'count'}},
+                          dict(lim0, n=2), lim0,
+                          {'k': 'dict', 'id': 0, 'kid': 1, 'key': fn('mod', n=2), 'sub': json.loads(json.dumps(lim0))}],
+                'shared': [], 'targets': [[], [jv(x) for x in range(6)]],
+                'evals': [[0, 0], [1, 0], [2, 0], [3, 1], [4, 1]], 'stream': 'corpus'})
+    # skip_below_key_level: {T % 2: Limit(2, lambda t: SKIP if t == 1 else t)} over [1, 3, 5, 7] is {1: 5} (the loop: {1: 3})
+    out.append({'specs': [{'k': 'dict', 'id': 0, 'kid': 1, 'key': fn('mod', n=2), 'sub':
+                           {'k': 'limit', 'oid': 2, 'n': 2, 'sub': {'k': 'fn', 'f': fn('skip_if', v=jv(1))}}},
+                          {'k': 'dict', 'id': 0, 'kid': 1, 'key': fn('mod', n=2), 'sub': {'k': 'fn', 'f': fn('skip_odd')}}],
+                'shared': [], 'targets': [[jv(x) for x in (1, 3, 5, 7)], [jv(x) for x in (1, 2, 3)]],
+                'evals': [[0, 0], [1, 1]], 'stream': 'corpus'})
+    # per-bucket well-typedness, float arithmetic, float / tuple keys, the Group docstring's range(10)
+    out.append({'specs': [{'k': 'dict', 'id': 0, 'kid': CLS_BASE + CLS_IDX['type'], 'key': cls('type'),
+                           'sub': {'k': 'agg', 'oid': 2, 'a': {'agg': 'max'}}}],
+                'shared': [], 'targets': [[jv(1), jv('a'), jv(3)]], 'evals': [[0, 0]], 'stream': 'corpus'})
+    out.append({'specs': [{'k': 'agg', 'oid': 0, 'a': {'agg': 'avg'}}, {'k': 'agg', 'oid': 0, 'a': {'agg': 'sum'}},
+                          {'k': 'dict', 'id': 1, 'kid': 2, 'key': fn('ident'), 'sub': {'k': 'list', 'id': 3, 'f': fn('ident')}}],
+                'shared': [], 'targets': [[jv(2 ** 53), jv(1), jv(1)], [jv(0.1)] * 10, [jv(1.0), jv(1), jv(2.5)],
+                                          [jv((1, 2)), jv((1, 2))]],
+                'evals': [[0, 0], [0, 1], [1, 1], [2, 2], [2, 3]], 'stream': 'corpus'})
+    out.append({'specs': [{'k': 'dict', 'id': 0, 'kid': 1, 'key': fn('mod', n=2), 'sub': {'k': 'list', 'id': 2, 'f': fn('ident')}}],
+                'shared': [], 'targets': [[jv(x) for x in range(10)]], 'tkinds': ['range'], 'evals': [[0, 0], [0, 0]],
+                'stream': 'corpus'})
+    # ONE Group object nested in two specs and evaluated itself
+    inner = {'k': 'agg', 'oid': 500, 'a': {'agg': 'sum'}}
+    out.append({'specs': [{'k': 'dict', 'id': 0, 'kid': 1, 'key': fn('len'), 'sub': {'k': 'nested', 'gid': 1, 'g': inner}},
+                          {'k': 'nested', 'gid': 1, 'g': inner}, {'k': 'group_obj', 'gid': 1, 'g': inner}],
+                'shared': [], 'targets': [[jv([1, 2]), jv([3]), jv([4, 5])], [jv(7), jv(8)]],
+                'evals': [[0, 0], [2, 1], [1, 0], [0, 0], [2, 1]], 'stream': 'corpus'})
     p = os.path.join(os.path.dirname(os.path.dirname(os.path.dirname(os.path.abspath(__file__)))),
                      'corpus', 'C16.jsonl')
     if os.path.exists(p):
@@ -1055,7 +1328,8 @@ def corpus():
 
 def key(case):
     c = normalize(case)
-    return {'specs': c['specs'], 'shared': c['shared'], 'targets': c['targets'], 'evals': c['evals'], 'rng': c['rng']}
+    return {'specs': c['specs'], 'shared': c['shared'], 'targets': c['targets'], 'tkinds': c['tkinds'],
+            'evals': c['evals'], 'rng': c['rng']}
 
 
 def nontrivial(case, verdict):
@@ -1088,7 +1362,7 @@ def known_features(s, below=False):
         return below and s['a']['agg'] == 'first'
     if k in ('list', 'fn'):
         return below and s['f']['fn'] == 'stop_at'
-    if k == 'nested':
+    if k in ('nested', 'group_obj'):
         return known_features(s['g'], False)
     return False
 
@@ -1108,7 +1382,7 @@ def strip_features(s, below=False):
         s['a'] = {'agg': 'count'}
     elif k in ('list', 'fn') and below and s['f']['fn'] == 'stop_at':
         s['f'] = fn('ident')
-    elif k == 'nested':
+    elif k in ('nested', 'group_obj'):
         s['g'] = strip_features(s['g'], False)
     return s
 
@@ -1147,13 +1421,22 @@ def shrink(case):
         c = dict(base); c['specs'] = [specs[i] for i in used_s]
         c['evals'] = [[used_s.index(si), ti] for si, ti in evals]
         yield c
+    kinds = base['tkinds']
     used_t = sorted({ti for _, ti in evals})
     if len(used_t) < len(targets):
         c = dict(base); c['targets'] = [targets[i] for i in used_t]
+        c['tkinds'] = [kinds[i] for i in used_t]
         c['evals'] = [[si, used_t.index(ti)] for si, ti in evals]
         yield c
+    # plain list targets
+    for i, k in enumerate(kinds):
+        if k != 'list':
+            c = dict(base); c['tkinds'] = kinds[:i] + ['list'] + kinds[i + 1:]
+            yield c
     # fewer items
     for i, r in enumerate(targets):
+        if kinds[i] in ('range', 'set', 'dict'):
+            continue
         for j in range(len(r)):
             c = dict(base); c['targets'] = targets[:i] + [r[:j] + r[j + 1:]] + targets[i + 1:]
             yield c
